@@ -277,7 +277,10 @@ def scopes_harness(ctx):
     fns = {f.get_name(): f for f in gtirb_functions.Function.build_functions(m)}
     blocks = {"e1": (e1, "main"), "x1": (x1, "main"), "e2": (e2, "helper"), "d0": (d0, None)}
     P = ctx.prove
-    pats = [None, set(), {"main"}, {re.compile("hel.*")}, {SC.MAIN_NAME}, {SC.ENTRYPOINT_NAME}, {"nomatch", re.compile("ma")}]
+    pats = [None, set(), {"main"}, {re.compile("hel.*")}, {SC.MAIN_NAME}, {SC.ENTRYPOINT_NAME}, {"nomatch", re.compile("ma")},
+            # ordered alternation and lazy quantifiers: "matches the whole name" is fullmatch, which backtracks; a prefix match that
+            # happens to stop early is not the same thing
+            {re.compile("help|helper")}, {re.compile("m.*?")}, {re.compile("ma|main|x")}, {re.compile("(?:he)+?lper|main$")}, {re.compile("hel")}, {re.compile("")}]
 
     def matches(fname, pat):
         if fname is None:
